@@ -116,6 +116,19 @@ def UExpr.noJoin (e : UExpr) : UExpr :=
   | t :: _ => { e with sp := t.sp }
   | [] => e
 
+def Sp.startsAtOrAfterEndOf (a b : Sp) : Bool :=
+  a.ls > b.le || (a.ls == b.le && a.cs ≥ b.ce)
+
+/-- A range expression without `Span::join`: its start operand's span is its first token's,
+its end operand's span is the span of the first token after the `..` / `..=`. -/
+def UExpr.noJoinRange (e : UExpr) : UExpr :=
+  match e.cls with
+  | .range st lim en =>
+    let st' := st.bind fun _ => e.toks.head?.map (·.sp)
+    let en' := en.bind fun _ => (e.toks.find? fun t => t.sp.startsAtOrAfterEndOf lim).map (·.sp)
+    { e.noJoin with cls := .range st' lim en' }
+  | _ => e.noJoin
+
 mutual
 /-- The AST as parsed in a real compiler session on stable, where `Span::join` returns
 `None`: the span of a set pattern is the `#` token alone (one character), and the span of
@@ -128,6 +141,7 @@ def Pat.noJoin : Pat → Pat
   | .slice id sp elems => .slice id sp elems.noJoin
   | .map id sp entries rest => .map id sp entries.noJoin rest
   | .simple id e => .simple id e.noJoin
+  | .range id e => .range id e.noJoinRange
   | .cmp id op osp e => .cmp id op osp e.noJoin
   | .like id e => .like id e.noJoin
   | .closure id e => .closure id e.noJoin
